@@ -178,6 +178,14 @@ func newC03Env(c *CfgSpec) (*c03Env, error) {
 			}
 		}
 	}
+	// the configuration echoed back: every configured pattern text as an Origin value (`https://*.example.com`,
+	// `http://localhost:*`, `*`) - none of them is an origin (lesson of seeded change C03-md)
+	for _, a := range c.Origins {
+		if !seen[a.Raw] && strings.Contains(a.Raw, "*") {
+			seen[a.Raw] = true
+			e.origins = append(e.origins, a.Raw)
+		}
+	}
 	for _, o := range c02OriginCandidates {
 		if v := o.String(); !seen[v] {
 			seen[v] = true
